@@ -167,9 +167,27 @@ func asPackage(p exPkg, i int) generator.Package {
 
 func execImpl() common.ExecImpl {
 	return common.ExecImpl{
+		ArgsVerify: argsVerify,
 		RunTarget: func(cfg *common.ExecConfig, i int, root string, rec *common.ExecRecorder) error {
 			e := newExEnv(cfg, rec)
 			return exContext(e).ExecutePackage(root, asPackage(exPkg{e, cfg.Targets[i]}, i))
+		},
+		Session: func(cfg *common.ExecConfig, root string) *common.ExecSession {
+			e := newExEnv(cfg, &common.ExecRecorder{})
+			c := exContext(e)
+			return &common.ExecSession{
+				Run: func(i int, rec *common.ExecRecorder) error {
+					e.rec = rec
+					return c.ExecutePackage(root, asPackage(exPkg{e, cfg.Targets[i]}, i))
+				},
+				Order: func() []int {
+					ids := []int{}
+					for _, t := range c.Order {
+						ids = append(ids, e.ids[t])
+					}
+					return ids
+				},
+			}
 		},
 		RunAll: func(cfg *common.ExecConfig, root string) error {
 			e := newExEnv(cfg, &common.ExecRecorder{})
